@@ -5,16 +5,16 @@
 #include <stdlib.h>
 #include <string.h>
 #include <unistd.h>
-#include "../../repo/programs/platform.h"
-#include "../../repo/programs/util.h"
-#include "../../repo/programs/fileio_common.h"
+#include "platform.h"   /* found through -I<repo>/… (tools/build.py), so that ZV_REPO can point at another checkout */
+#include "util.h"   /* found through -I<repo>/… (tools/build.py), so that ZV_REPO can point at another checkout */
+#include "fileio_common.h"   /* found through -I<repo>/… (tools/build.py), so that ZV_REPO can point at another checkout */
 static char g_ops[1 << 16]; static size_t g_opl;
 static size_t zv_fwrite(const void* p, size_t sz, size_t n, FILE* f) { g_opl += (size_t)snprintf(g_ops + g_opl, sizeof g_ops - g_opl, "%sw%zu", g_opl ? "," : "", sz * n); return fwrite(p, sz, n, f); }
 static int zv_seek(FILE* f, long long off, int whence) { g_opl += (size_t)snprintf(g_ops + g_opl, sizeof g_ops - g_opl, "%ss%lld", g_opl ? "," : "", off); return fseeko(f, (off_t)off, whence); }
 #undef LONG_SEEK
 #define LONG_SEEK zv_seek
 #define fwrite zv_fwrite
-#include "../../repo/programs/fileio_asyncio.c"
+#include "fileio_asyncio.c"   /* found through -I<repo>/… (tools/build.py), so that ZV_REPO can point at another checkout */
 #undef fwrite
 FIO_display_prefs_t g_display_prefs = { 2, FIO_ps_auto };
 static int hv(int c) { return c <= '9' ? c - '0' : (c | 32) - 'a' + 10; }
